@@ -10,6 +10,7 @@ import (
 	"os"
 	"path/filepath"
 	"sync"
+	"time"
 
 	"github.com/high-moctane/mocrelay/handler/sqlite"
 	sqlite3 "github.com/mattn/go-sqlite3"
@@ -320,16 +321,23 @@ func c14RunFault(c *c14Case) {
 			db.Close()
 			return
 		}
-		c.Fault[i] = answers(ctx, db, seed, c.Qs)
-		if err := sqlite.VerifInsertEvents(ctx, db, seed, toEvents(c.B)); err != nil {
+		// what follows a failed insertion runs under a deadline: a transaction that was neither committed nor
+		// rolled back keeps the only connection of the pool, and every later statement would wait for ever
+		fctx, fcancel := context.WithTimeout(ctx, c14AfterFaultBound)
+		c.Fault[i] = answers(fctx, db, seed, c.Qs)
+		if err := sqlite.VerifInsertEvents(fctx, db, seed, toEvents(c.B)); err != nil {
 			c.Panic = fmt.Sprintf("retry after fault at call %d failed: %v", k, err)
-			db.Close()
+			fcancel()
+			go db.Close() // Close waits for the connections in use: not on this goroutine
 			return
 		}
-		c.Retry[i] = answers(ctx, db, seed, c.Qs)
+		c.Retry[i] = answers(fctx, db, seed, c.Qs)
+		fcancel()
 		db.Close()
 	}
 }
+
+const c14AfterFaultBound = 4 * time.Second
 
 // c14SamplePositions: for a big batch every position would cost one fresh
 // database each; begin, a prepare, the first exec, the middle, two positions in
